@@ -155,7 +155,7 @@ Proof. exact open_race_witness_repaired. Qed.
    From any invariant state; independent of the manager's reference count. *)
 Theorem C14_dead_session_returns_slices : forall w i s,
   PInv w -> nth_error (ss (pb w)) i = Some s -> cleaned s = false ->
-  let w' := pstep true (pstep true w (PBase (LClose i))) (PBase (LLambda i)) in
+  let w' := pstep code_ok (pstep code_ok w (PBase (LClose i))) (PBase (LLambda i)) in
   held_by i (holds w') = O /\
   returned w' = (returned w + held_by i (holds w))%nat /\
   (forall j, i <> j -> held_by j (holds w') = held_by j (holds w)) /\
@@ -166,7 +166,7 @@ Print Assumptions C14_dead_session_returns_slices.
 (* ... over all schedules: every slice ever taken is back in the free lists or held by a stream of a
    session whose cleanup has not run yet *)
 Theorem C14_slices_conserved : forall sch,
-  let w := prun true sch pinit in
+  let w := prun code_ok sch pinit in
   taken w = (returned w + total_held (holds w))%nat /\
   (forall h, In h (holds w) -> table_dropped (pb w) (fst h) = false) /\ WInv (pb w).
 Proof. exact slices_conserved. Qed.
@@ -175,12 +175,26 @@ Print Assumptions C14_slices_conserved.
 (* regression: a Stream.clean that returns early once the session is closed ("a closed session releases
    its share memory as a whole") — conservation is false of it while a sibling keeps the manager alive *)
 Definition C14_early_return_clean_full : Prop :=
-  forall sch, let w := prun false sch pinit in taken w = (returned w + total_held (holds w))%nat.
+  forall sch, let w := prun code_early_return_clean sch pinit in taken w = (returned w + total_held (holds w))%nat.
 Theorem C14_early_return_clean_refuted : ~ C14_early_return_clean_full.
 Proof. exact early_return_loses_slices. Qed.
 Print Assumptions C14_early_return_clean_refuted.
+(* regression: a Flush parked in the queue-full retry that RETURNS on the close notification instead of going
+   through the common buf.recycle() — Session.Close / exitErr notify every stream first and recycle later, in
+   the posted cleanup, so the woken Flush leaves nothing for the cleanup and the chain is lost while a sibling
+   keeps the manager alive.  (With the code that exists, code_ok, that exit is a PGive like every other exit
+   of Flush: C14_slices_conserved and C14_dead_session_returns_slices cover it.) *)
+Definition C14_flush_close_exit_returns_full : Prop :=
+  forall sch, let w := prun code_flush_returns_on_close sch pinit in taken w = (returned w + total_held (holds w))%nat.
+Theorem C14_flush_close_exit_returns_refuted : ~ C14_flush_close_exit_returns_full.
+Proof. exact flush_close_exit_loses_slices. Qed.
+Print Assumptions C14_flush_close_exit_returns_refuted.
+Example C14_example_flush_closed_while_parked :
+  let w := prun code_ok flush_close_witness pinit in
+  taken w = 8%nat /\ returned w = 8%nat /\ holds w = [] /\ refcount 7 (pb w) = 1.
+Proof. exact flush_close_witness_ok. Qed.
 Example C14_example_slices :
-  let w := prun true slices_witness pinit in
+  let w := prun code_ok slices_witness pinit in
   taken w = 55%nat /\ returned w = 50%nat /\ holds w = [(1%nat, 5%nat)] /\ refcount 7 (pb w) = 1.
 Proof. exact slices_witness_ok. Qed.
 
